@@ -335,6 +335,32 @@ func filterValueExact(c *sqlh.ColDesc, stored CV) sqlh.GV {
 	return sqlh.GV{T: bt, S: stored.S}
 }
 
+// oddTransparent: filters that are NOT exactly typed and yet answered alike with and without batching (the
+// matcher never accepts a row and the WHERE clause never selects one, or both accept exactly the same
+// stored values although the Go types differ): the strip between the old hypothesis filter_exactly_typed
+// and the exact one, filter_transparent.
+func oddTransparent(g *sqlh.Gen, t *sqlh.TableDesc) sqlh.Filter {
+	empty := sqlh.GV{T: "string", S: ""}
+	switch t.Name {
+	case "items":
+		switch g.R.Intn(4) {
+		case 0: // pointer to "" on the implicitnull column selects nothing; int(..) is never matched
+			return sqlh.Filter{"note": {T: "ptr", Addr: g.NewAddr(), Elem: &empty}, "id": {T: "int", Z: int64(1 + g.R.Intn(4))}}
+		case 1: // Shifted(2^31-1) serializes to 2^31, which no int32 column stores, and is never matched
+			return sqlh.Filter{"kind": {T: "Shifted", Z: 1<<31 - 1}}
+		case 2: // a plain string on the named-string column is never matched; the other column selects nothing
+			return sqlh.Filter{"note": {T: "ptr", Addr: g.NewAddr(), Elem: &empty}, "label": {T: "string", S: "a"}}
+		}
+		return sqlh.Filter{"note": {T: "ptr", Addr: g.NewAddr(), Elem: &empty}, "kind": {T: "int32", Z: int64(g.R.Intn(3))}}
+	case "users":
+		if g.R.Bool() {
+			return sqlh.Filter{"age": {T: "Shifted", Z: 1<<31 - 1}} // serializes to 2^31: no int32 column stores it
+		}
+		return sqlh.Filter{"age": {T: "Shifted", Z: 1<<31 - 1}, "name": {T: "string", S: g.R.Pick(sqlh.SmallStrings)}}
+	}
+	return sqlh.Filter{"seq": {T: "Shifted", Z: 1<<32 - 1}, "tag": {T: "Label", S: g.R.Pick(sqlh.SmallStrings)}}
+}
+
 func genCase(g *sqlh.Gen) Case {
 	t := sqlh.Tables[g.R.Intn(len(sqlh.Tables))]
 	c := Case{Table: t.Name, Origin: "generated"}
@@ -360,6 +386,8 @@ func genCase(g *sqlh.Gen) Case {
 		f := sqlh.Filter{}
 		switch k := g.R.Intn(100); {
 		case k < 6: // empty filter: matches every row
+		case k >= 96: // not exactly typed, yet transparent
+			f = oddTransparent(g, t)
 		case k < 18 && len(c.Filters) > 0: // equal to an earlier filter
 			for key, v := range c.Filters[g.R.Intn(len(c.Filters))] {
 				f[key] = v
@@ -631,7 +659,13 @@ func main() {
 
 	totalCallers, totalStatements := 0, 0
 	knownRecorded := 0
-	for idx, c := range cases {
+	premiseAll, premiseTyped, premiseTransparent := 0, 0, 0
+	witnesses, witnessBudget := 0, 400
+	if o.N > 2000 {
+		witnessBudget = o.N / 4
+	}
+	for idx := 0; idx < len(cases); idx++ {
+		c := cases[idx]
 		run.LogCase(idx, c)
 		res, fatal := runCase(c)
 		if fatal != "" {
@@ -678,18 +712,18 @@ func main() {
 				continue
 			}
 			sig := "c10-batched-rows-differ"
-			typed, null := true, false
+			null := false
 			for k, v := range f {
-				col := t.Col(k)
-				if !exactlyTyped(col, v) {
-					typed = false
-				}
-				if denotesNull(col, v) {
+				if denotesNull(t.Col(k), v) {
 					null = true
 				}
 			}
+			// the known class is exactly the complement of filter_transparent (proved necessary and
+			// sufficient in Sql/BatchExact.v); a transparent filter that is answered differently is a failure
+			// even when its Go types are not the columns'
+			cmp, transparent := sqlh.Transparent(t, f)
 			switch {
-			case !typed:
+			case !cmp || !transparent:
 				sig = "c10-batch-matcher-go-type"
 				anyKnown = true
 			case c.caller(i).effectiveOpts() != nil:
@@ -710,6 +744,45 @@ func main() {
 			}
 			oj, _ := json.Marshal(c.caller(i))
 			run.Fail(idx, sig, fmt.Sprintf("caller %d %s filter %s: alone %+v, with batching %+v (code 0 rows / 1 no rows / 2 more than one row; row positions)", i, oj, fj, res.single[i], res.batched[i]), c)
+		}
+		// ---- necessity of the theorem's hypothesis, replayed on the implementation ----
+		// Sql/BatchExact.v proves that a (comparable) filter outside filter_transparent is answered differently
+		// in the company of an empty filter on a one-row table.  For the first such caller of a generated case
+		// that one-row case is built (by the harness's own construction, sqlh.SeparatingRow) and queued as a case
+		// of its own; when it is run, the difference must show (and the model must predict both results).
+		if c.Origin == "generated" && !searching && witnesses < witnessBudget {
+			for _, f := range c.Filters {
+				if row, ok := sqlh.SeparatingRow(t, f); ok {
+					w := Case{Table: c.Table, Origin: "necessity-witness", Filters: []sqlh.Filter{f, {}}, Callers: []Caller{{}, {}}}
+					cv := make([]CV, len(row))
+					for j, d := range row {
+						cv[j] = CV{K: d.K, S: d.S}
+						if d.K == "float" {
+							cv[j].Q = d.Z
+						} else {
+							cv[j].Z = d.Z
+						}
+					}
+					w.Contents = [][]CV{cv}
+					cases = append(cases, w)
+					witnesses++
+					break
+				}
+			}
+		}
+		if c.Origin == "necessity-witness" {
+			together := len(res.arrival) == 1 && len(res.arrival[0]) == 2
+			switch {
+			case !together:
+				run.Hist("necessity-witness:callers-not-combined (nothing to conclude)")
+			case sameResult(res.single[0], res.batched[0]):
+				fj, _ := json.Marshal(c.Filters[0])
+				run.Fail(idx, "c10-necessity-witness-does-not-separate", fmt.Sprintf("filter %s is outside filter_transparent, yet on its witness row it got %+v alone and %+v with batching", fj, res.single[0], res.batched[0]), c)
+			case len(res.batched[0].Rows) > len(res.single[0].Rows):
+				run.Hist("necessity-witness:separates (batched caller received a row its own query does not select)")
+			default:
+				run.Hist("necessity-witness:separates (batched caller lost a row of its own query)")
+			}
 		}
 		inBatch := 0
 		for _, b := range res.arrival {
@@ -746,6 +819,32 @@ func main() {
 			}
 			if len(f) == 0 {
 				run.Hist("filter:empty")
+			}
+			typed := true
+			for k, v := range f {
+				if !exactlyTyped(t.Col(k), v) {
+					typed = false
+				}
+			}
+			cmp, tr := sqlh.Transparent(t, f)
+			if c.Origin == "generated-large" || c.Origin == "necessity-witness" {
+				continue // a handful of filters repeated a thousand times / built to lie outside: not counted
+			}
+			premiseAll++
+			switch {
+			case typed && !tr:
+				run.Fail(idx, "c10-harness-premise-inconsistent", "an exactly typed filter is not transparent", c)
+			case typed:
+				run.Hist("premise:exactly-typed (transparent)")
+				premiseTyped++
+				premiseTransparent++
+			case tr:
+				run.Hist("premise:transparent, not exactly typed")
+				premiseTransparent++
+			case !cmp:
+				run.Hist("premise:outside (value not comparable with the column)")
+			default:
+				run.Hist("premise:outside (known matcher class)")
 			}
 		}
 		for i := range c.Filters {
@@ -814,8 +913,13 @@ func main() {
 			cl := c.caller(i)
 			cls[i] = fmt.Sprintf("(mk_caller %s %s)", vh.CoqBool(cl.Kind == "queryrow"), cl.effectiveOpts().Coq())
 		}
-		terms = append(terms, fmt.Sprintf("(%d, mk_c10 %s %s %s %s %s %s %s %s %s)", idx, t.Coq(), vh.CoqList(fs), vh.CoqList(cls),
-			sqlh.CoqArrival(res.arrival), vh.CoqList(rows), bev, coqResults(res.batched), sev, coqResults(res.single)))
+		flags := make([]string, len(c.Filters))
+		for i, f := range c.Filters {
+			_, tr := sqlh.Transparent(t, f)
+			flags[i] = vh.CoqBool(tr)
+		}
+		terms = append(terms, fmt.Sprintf("(%d, mk_c10 %s %s %s %s %s %s %s %s %s %s)", idx, t.Coq(), vh.CoqList(fs), vh.CoqList(cls),
+			sqlh.CoqArrival(res.arrival), vh.CoqList(rows), bev, coqResults(res.batched), sev, coqResults(res.single), vh.CoqList(flags)))
 		if len(terms) >= shard {
 			flush()
 		}
@@ -824,6 +928,19 @@ func main() {
 	if o.Replay == "" && !searching && totalCallers >= 20 && totalStatements >= totalCallers {
 		run.Fail(-1, "c10-no-combining", fmt.Sprintf("%d batched callers needed %d statements: concurrent queries are not combined", totalCallers, totalStatements), nil)
 	}
-	run.Extra = map[string]interface{}{"batched_callers": totalCallers, "batched_statements": totalStatements}
+	share := func(a, b int) float64 {
+		if b == 0 {
+			return 0
+		}
+		return float64(int(10000*float64(a)/float64(b))) / 10000
+	}
+	if premiseAll > 0 {
+		run.Hist(fmt.Sprintf("premise-share: %.1f%% of %d generated / corpus callers satisfy filter_transparent (the theorems' premise), %.1f%% the earlier hypothesis filter_exactly_typed; %d necessity witnesses replayed",
+			100*share(premiseTransparent, premiseAll), premiseAll, 100*share(premiseTyped, premiseAll), witnesses))
+	}
+	run.Extra = map[string]interface{}{"batched_callers": totalCallers, "batched_statements": totalStatements,
+		"premise": map[string]interface{}{"filters": premiseAll, "exactly_typed": premiseTyped, "transparent": premiseTransparent,
+			"share_transparent": share(premiseTransparent, premiseAll), "share_exactly_typed": share(premiseTyped, premiseAll),
+			"necessity_witnesses_replayed": witnesses}}
 	run.Finish()
 }
